@@ -165,3 +165,24 @@ Definition C13_stop_final_cursor : Prop :=
     snd res = JStop ->
     exists pre e, fst res = pre ++ [e] /\ eblk e = bS /\
       map eblk (fst res) = seg_num (rn (cu_lib cu) + 1) (j_stop c) canon.
+
+(* ... and through a target cursor on a final canonical block (hypotheses of C07_seamless_target_final_full), the target cursor
+   not beyond the stop block (the scope of C13_stop_target): from the start block on exactly canon up to block S, S last. *)
+Definition C13_stop_final_target : Prop :=
+  forall (U : list block) (c : jcfg) (w : world) (ps : list (N * N)) (merged_end : N) (canon forked : list block)
+         (cu : cursor) (B : block),
+    wf_b U = true -> lib_ok_b LNone U = true ->
+    hub_of_universe U c w ->
+    chain_ok canon -> incl canon U ->
+    let merged := filter (fun b => bnum b <? merged_end) canon in
+    eventual_tip c w canon ->
+    j_mode c = 2 -> j_cursor c = Some cu -> j_filter c = 1 ->
+    0 < j_bundle c -> Forall (fun b => bnum b < file_bound) merged ->
+    In B canon -> bref B = cu_blk cu -> cu_lib cu = cu_blk cu ->
+    let res := stream_run c w ps merged_end merged forked in
+    let start := run_start c w in
+    (exists b, In b canon /\ bnum b = start) ->
+    forall bS, In bS canon -> bnum bS = j_stop c -> rn (cu_blk cu) <= j_stop c ->
+    snd res = JStop ->
+    exists pre e, fst res = pre ++ [e] /\ eblk e = bS /\
+      from_num start (map eblk (fst res)) = seg_num start (j_stop c) canon.
